@@ -94,7 +94,7 @@ Reset ==
            /\ hist' = Append(hist, [call |-> "reset", target |-> NullTarget, out |-> "ok", done |-> e2.done,
                                     now |-> e2.now, nlv |-> Deposit, pre |-> NaN, post |-> NaN, trades |-> <<>>,
                                     interest |-> Zero, comm |-> Zero, exec |-> NullTarget, pos |-> s1.st.pos,
-                                    stamp |-> NoT, entries |-> 0, snap |-> <<>>])
+                                    stamp |-> NoT, entries |-> 0, snap |-> <<>>, traded |-> FALSE, edge |-> {}])
     /\ UNCHANGED cfg
 
 \* independent replay: NLV from deposit, what was paid, fees, interest and the current quotes only
@@ -122,7 +122,8 @@ StepF(tgt) ==
           ret |-> [call |-> "step", out |-> "ended", done |-> TRUE],
           rec |-> [call |-> "step", target |-> tgt, out |-> "ended", done |-> TRUE, now |-> env.now,
                    nlv |-> NaN, pre |-> NaN, post |-> NaN, trades |-> <<>>, interest |-> Zero,
-                   comm |-> Zero, exec |-> NullTarget, pos |-> st.pos, stamp |-> NoT, entries |-> Len(track), snap |-> <<>>]]
+                   comm |-> Zero, exec |-> NullTarget, pos |-> st.pos, stamp |-> NoT, entries |-> Len(track), snap |-> <<>>,
+                   traded |-> FALSE, edge |-> {}]]
     ELSE
     LET q1  == <<tgt>> \o env.queue
         due == LastOf(q1)
@@ -168,6 +169,7 @@ StepF(tgt) ==
                   nlv |-> v.nlv, pre |-> IF track1 = <<>> THEN NaN ELSE LastOf(track1).pre, post |-> r.post,
                   trades |-> r.trades, interest |-> r.interest, comm |-> r.comm, exec |-> req.alloc,
                   pos |-> v.st.pos, stamp |-> IF executed THEN now1 ELSE NoT, entries |-> Len(track1),
+                  traded |-> tradesDone, edge |-> r.edge,
                   snap |-> IF executed THEN [prepos |-> r.prest.pos, precash |-> r.prest.cash, premrg |-> r.prest.mrg,
                                              postpos |-> r.postst.pos, postcash |-> r.postst.cash, postmrg |-> r.postst.mrg]
                            ELSE <<>>]]
